@@ -51,6 +51,9 @@ MStep(pk, n, m, e) ==
     [] e.e = "write" ->
          IF ~m.pan /\ d > 0 /\ m.stk[d].h = e.h /\ m.pend = "body"
          THEN [m EXCEPT !.st = TRUE, !.code = IF m.st THEN @ ELSE e.code] ELSE Bad(m, "write outside its handler")
+    [] e.e = "setrh" ->
+         \* the handler mapped a ReturnHandler into the request scope: it replaces the table from now on
+         IF ~m.pan /\ d > 0 /\ m.stk[d].h = e.h /\ m.pend = "body" THEN [m EXCEPT !.rh = TRUE] ELSE Bad(m, "setrh outside its handler")
     [] e.e = "cancel" ->
          IF ~m.pan /\ d > 0 /\ m.stk[d].h = e.h /\ m.pend = "body" THEN [m EXCEPT !.cn = TRUE] ELSE Bad(m, "cancel outside its handler")
     [] e.e = "next" ->
